@@ -470,6 +470,11 @@ func (s *scanner) ReadHexString() (String, error) {
 		}
 	}
 	if !first {
+		if len(res) >= maxStringBytes {
+			return nil, &MalformedFileError{
+				Err: errors.New("hex string too long"),
+			}
+		}
 		res = append(res, 16*hexVal)
 	}
 
